@@ -442,7 +442,12 @@ func (c *Conn) handleMail(arg string) {
 		}
 	}
 
-	if err := c.Session().Mail(from, opts); err != nil {
+	session := c.Session()
+	if session == nil {
+		// Server.Close ended the connection in the middle of this command.
+		return
+	}
+	if err := session.Mail(from, opts); err != nil {
 		c.writeError(451, EnhancedCode{4, 0, 0}, err)
 		return
 	}
@@ -754,7 +759,12 @@ func (c *Conn) handleRcpt(arg string) {
 		}
 	}
 
-	if err := c.Session().Rcpt(recipient, opts); err != nil {
+	session := c.Session()
+	if session == nil {
+		// Server.Close ended the connection in the middle of this command.
+		return
+	}
+	if err := session.Rcpt(recipient, opts); err != nil {
 		c.writeError(451, EnhancedCode{4, 0, 0}, err)
 		return
 	}
@@ -956,13 +966,19 @@ func (c *Conn) handleData(arg string) {
 
 	defer c.reset()
 
+	session := c.Session()
+	if session == nil {
+		// Server.Close ended the connection in the middle of this command.
+		return
+	}
+
 	if c.server.LMTP {
-		c.handleDataLMTP()
+		c.handleDataLMTP(session)
 		return
 	}
 
 	r := newDataReader(c)
-	code, enhancedCode, msg := dataErrorToStatus(c.Session().Data(r))
+	code, enhancedCode, msg := dataErrorToStatus(session.Data(r))
 	r.limited = false
 	_, drainErr := io.Copy(ioutil.Discard, r) // Make sure all the data has been consumed
 	c.writeResponse(code, enhancedCode, msg)
@@ -1308,16 +1324,16 @@ func (s *statusCollector) SetStatus(rcptTo string, err error) {
 	}
 }
 
-func (c *Conn) handleDataLMTP() {
+func (c *Conn) handleDataLMTP(session Session) {
 	r := newDataReader(c)
 	status := c.createStatusCollector()
 
 	done := make(chan bool, 1)
 
-	lmtpSession, ok := c.Session().(LMTPSession)
+	lmtpSession, ok := session.(LMTPSession)
 	if !ok {
 		// Fallback to using a single status for all recipients.
-		err := c.Session().Data(r)
+		err := session.Data(r)
 		r.limited = false
 		_, drainErr := io.Copy(ioutil.Discard, r) // Make sure all the data has been consumed
 		for _, rcpt := range c.recipients {
